@@ -35,7 +35,7 @@ def tokenSum (steps : List Step) : Nat :=
 
 /-- the hook compiled into the real parser under `oq3_verif`:
 `VERIF_NO_PROGRESS_BASE + VERIF_NO_PROGRESS_PER_TOKEN * input length` -/
-def noProgressLimit (n : Nat) : Nat := 2000 + 8 * n
+def noProgressLimit (n : Nat) : Nat := 2000 + 64 * n
 
 def showResult (r : Except Outcome (Array Ev × Nat)) : String :=
   match r with
